@@ -1,4 +1,5 @@
 import Op2Proofs.Clm.Sets
+import Op2Proofs.Clm.Names
 import Op2Model.Gen.Layout
 import Op2Model.Gen.Constants
 /-!
@@ -313,6 +314,55 @@ example : bytesOf? (create (filesOf exSrcs)) =
 example : bytesOf? (create [([97, 98, 99, 100, 101, 102, 103, 104, 105, 46, 119], ⟨exWav.enc, 0⟩)]) = none := by decide
 example : bytesOf? (create [([97, 46, 119], ⟨exWav.enc, 0⟩), ([65, 46, 119, 97, 118], ⟨exWav.enc, 0⟩)]) = none := by decide
 example : bytesOf? (create [([97, 46, 119], ⟨[104, 101, 108, 108, 111, 32, 119, 111, 114, 108, 100, 33, 33, 33, 33, 33, 33, 33, 33, 33, 33], 0⟩)]) = none := by decide
+
+/-! ## names in order, unconditionally for bare paths over the property's alphabet -/
+
+/-- for bare paths `stem` / `stem.ext` whose stem characters are above '.' (letters, digits, underscore) and contain no
+    '/', stripping the extension does not change how two paths compare -/
+theorem C03_order_compatible_bare (stemS stemT : Bytes) (sfxS sfxT : Suffix)
+    (hS : StemOk stemS) (hT : StemOk stemT) (hxS : sfxS.Ok) (hxT : sfxT.Ok)
+    (h : Str.ltCI (Path.getFilename (stemT ++ sfxT.bytes)) (Path.getFilename (stemS ++ sfxS.bytes)) = false) :
+    Str.ltCI (nameOf (stemT ++ sfxT.bytes)) (nameOf (stemS ++ sfxS.bytes)) = false := by
+  rw [(bare_names stemS sfxS hS hxS).1, (bare_names stemT sfxT hT hxT).1] at h
+  rw [(bare_names stemS sfxS hS hxS).2, (bare_names stemT sfxT hT hxT).2]
+  cases hlt : Str.ltCI stemT stemS
+  · rfl
+  · have := ltCI_stems stemT stemS sfxT sfxS (fun x hx => ⟨(hT.2 x hx).1, (hT.2 x hx).2.1⟩)
+      (fun x hx => ⟨(hS.2 x hx).1, (hS.2 x hx).2.1⟩) hlt
+    rw [this] at h; cases h
+
+/-- **names come out in case-insensitive order**: for sources given as bare `stem[.ext]` paths with stems over the
+    property's alphabet and pairwise distinct ignoring case, the archive order is strictly increasing by name -/
+theorem C03_names_sorted_bare (srcs : List (Bytes × Desc))
+    (hbare : ∀ s ∈ srcs, ∃ stem sfx, s.1 = stem ++ Suffix.bytes sfx ∧ StemOk stem ∧ sfx.Ok)
+    (hdistinct : Str.NoDupCI (fun s : Bytes × Desc => nameOf s.1) srcs) :
+    Str.SortedS (fun s : Bytes × Desc => nameOf s.1) (sortedSrcs srcs) := by
+  apply C03_names_sorted srcs _ hdistinct
+  intro s hs t ht h
+  obtain ⟨stemS, sfxS, es, hS, hxS⟩ := hbare s hs
+  obtain ⟨stemT, sfxT, et, hT, hxT⟩ := hbare t ht
+  rw [es, et] at h ⊢
+  exact C03_order_compatible_bare stemS stemT sfxS sfxT hS hT hxS hxT h
+
+/-- the example set consists of such paths -/
+example : ∀ s ∈ exSrcs, ∃ stem sfx, s.1 = stem ++ Suffix.bytes sfx ∧ StemOk stem ∧ sfx.Ok := by
+  intro s hs
+  simp only [exSrcs, List.mem_cons, List.not_mem_nil, or_false] at hs
+  rcases hs with rfl | rfl | rfl
+  · exact ⟨[98], .withExt [119, 97, 118], rfl, ⟨by simp, by decide⟩, by show ∀ x ∈ _, _; decide⟩
+  · exact ⟨[65, 95, 49], .withExt [87, 65, 86], rfl, ⟨by simp, by decide⟩, by show ∀ x ∈ _, _; decide⟩
+  · exact ⟨[97], .withExt [119, 97, 118], rfl, ⟨by simp, by decide⟩, by show ∀ x ∈ _, _; decide⟩
+
+/-- for bare paths over the property's alphabet, two names equal ignoring case are always refused, wherever they stand -/
+theorem C03_duplicates_refused_bare (files : List (Bytes × Content)) (hlen : ∀ f ∈ files, f.2.len < 2 ^ 63)
+    (hbare : ∀ f ∈ files, ∃ stem sfx, f.1 = stem ++ Suffix.bytes sfx ∧ StemOk stem ∧ sfx.Ok)
+    (hdup : ¬ Str.NoDupCI (fun f : Bytes × Content => nameOf f.1) files) : create files = .err := by
+  apply C03_duplicates_refused files hlen _ hdup
+  intro s hs t ht h
+  obtain ⟨stemS, sfxS, es, hS, hxS⟩ := hbare s hs
+  obtain ⟨stemT, sfxT, et, hT, hxT⟩ := hbare t ht
+  rw [es, et] at h ⊢
+  exact C03_order_compatible_bare stemS stemT sfxS sfxT hS hT hxS hxT h
 
 /-! ## bridging lemmas: facts regenerated from the current source are the model's -/
 
